@@ -894,7 +894,10 @@ func c13ExecuteSeq(tree *TNode, steps []c13Step) (calls []int, mismatch string) 
 				ctx.EnableTransformation()
 				ctx.EnableStaticCheck()
 				tree := root
-				n, err := parsley.Parse(ctx, parser.Func(func(*parsley.Context, data.IntMap, parsley.Pos) (parsley.Node, data.IntSet, parsley.Error) {
+				n, err := parsley.Parse(ctx, parser.Func(func(ctx *parsley.Context, _ data.IntMap, _ parsley.Pos) (parsley.Node, data.IntSet, parsley.Error) {
+					// like every real combinator, the parser leaves the error of an abandoned
+					// attempt in the context although it succeeded - further along than any node
+					ctx.SetError(parsley.NewErrorf(f.Pos(2390), "was expecting something else"))
 					return tree, data.EmptyIntSet, nil
 				}))
 				if err != nil {
@@ -902,6 +905,21 @@ func c13ExecuteSeq(tree *TNode, steps []c13Step) (calls []int, mismatch string) 
 				} else {
 					got = "pipeline=" + r.shape(n)
 					newRoot = n
+				}
+			case "evalpipe":
+				// parsley.Evaluate: the same kind of parser, then the evaluation of its result
+				f := text.NewFile("in", []byte(strings.Repeat("x", 2400)))
+				ctx := parsley.NewContext(parsley.NewFileSet(f), text.NewReader(f))
+				ctx.SetUserContext(r.userCtx)
+				tree := root
+				v, err := parsley.Evaluate(ctx, parser.Func(func(ctx *parsley.Context, _ data.IntMap, _ parsley.Pos) (parsley.Node, data.IntSet, parsley.Error) {
+					ctx.SetError(parsley.NewErrorf(f.Pos(2390), "was expecting something else"))
+					return tree, data.EmptyIntSet, nil
+				}))
+				if err != nil {
+					got = "evalpipe-err=" + err.Error()
+				} else {
+					got = "evalpipe=" + canon(v)
 				}
 			}
 		}()
@@ -934,6 +952,14 @@ func c13ExecuteSeq(tree *TNode, steps []c13Step) (calls []int, mismatch string) 
 					want = "eval-err=" + e
 				} else {
 					want = "eval=" + canon(v)
+				}
+			case "evalpipe":
+				v, e := m.eval(mroot)
+				if e != "" {
+					i := strings.Index(e, ":")
+					want = "evalpipe-err=" + e[i+1:] + " at in:1:" + e[:i]
+				} else {
+					want = "evalpipe=" + canon(v)
 				}
 			case "pipeline":
 				rendered := func(e string) string { // "pos:msg" -> "msg at in:1:pos"
@@ -1006,7 +1032,7 @@ func c13ExecuteSeq(tree *TNode, steps []c13Step) (calls []int, mismatch string) 
 	return calls, ""
 }
 
-var c13Passes = []string{"walk", "check", "transform", "eval", "pipeline"}
+var c13Passes = []string{"walk", "check", "transform", "eval", "pipeline", "evalpipe"}
 
 func (*c13Prop) Run(cc Case) Verdict {
 	c := cc.(*c13Case)
@@ -1111,6 +1137,8 @@ func (*c13Prop) Run(cc Case) Verdict {
 			[]c13Step{{"walk", 0}, {"check", 0}, {"eval", 0}},
 			[]c13Step{{"eval", 0}, {"walk", 1}, {"check", 0}},
 			[]c13Step{{"pipeline", 0}, {"eval", 0}},
+			[]c13Step{{"pipeline", 0}, {"evalpipe", 0}},
+			[]c13Step{{"evalpipe", 0}, {"evalpipe", 0}},
 			[]c13Step{{"pipeline", 0}, {"pipeline", 0}},
 			[]c13Step{{"check", 0}, {"pipeline", 0}, {"walk", 0}},
 		)
